@@ -236,6 +236,67 @@ func init() {
 		x.noteLastErr(st, fn, []Term{e})
 		return []Term{e}
 	}
+	// sort.Strings(x), sort.Sort(sort.StringSlice(x)), sort.Sort(sort.Reverse(sort.StringSlice(x))) on a local
+	// slice x: afterwards x holds a permutation of its elements in ascending / descending order of the
+	// string comparison (assumed contract of package sort; other uses of sort.Sort are opaque).
+	sortStrings := func(x *Exec, call *ast.CallExpr, target ast.Expr, desc bool, st *State) bool {
+		if _, ok := x.subst(types.Unalias(x.typeOf(target))).Underlying().(*types.Slice); !ok {
+			return false
+		}
+		lv := x.lvalue(target, st)
+		old := lv.load(st)
+		if old.Sort != x.sliceSort(SStr) {
+			return false
+		}
+		ne := x.ctx.Fresh("sorted", arraySort(SInt, SStr))
+		nv := x.mkSlice(SStr, ne, x.sliceLen(old), x.sliceNonNil(old), x.sliceArr(old))
+		ln := x.sliceLen(old).S
+		oe := x.sliceElemsOf(old).S
+		a, b := "(select "+ne.S+" i)", "(select "+ne.S+" j)"
+		ord := "(not (sless " + b + " " + a + "))" // ascending: no later element is smaller
+		if desc {
+			ord = "(not (sless " + a + " " + b + "))"
+		}
+		st.define(Term{fmt.Sprintf("(forall ((i Int) (j Int)) (! (=> (and (<= 0 i) (< i j) (< j %s)) %s) :pattern ((select %s i) (select %s j))))", ln, ord, ne.S, ne.S), SBool})
+		// permutation, as far as contracts need it: every new element is an old one and vice versa
+		p1 := x.ctx.Fresh("perm", arraySort(SInt, SInt))
+		p2 := x.ctx.Fresh("perm", arraySort(SInt, SInt))
+		st.define(Term{fmt.Sprintf("(forall ((i Int)) (! (=> (and (<= 0 i) (< i %s)) (and (<= 0 (select %s i)) (< (select %s i) %s) (= (select %s i) (select %s (select %s i))))) :pattern ((select %s i))))", ln, p1.S, p1.S, ln, ne.S, oe, p1.S, ne.S), SBool})
+		st.define(Term{fmt.Sprintf("(forall ((i Int)) (! (=> (and (<= 0 i) (< i %s)) (and (<= 0 (select %s i)) (< (select %s i) %s) (= (select %s i) (select %s (select %s i))))) :pattern ((select %s i))))", ln, p2.S, p2.S, ln, oe, ne.S, p2.S, oe), SBool})
+		lv.store(st, nv)
+		return true
+	}
+	specialExternals["sort.Strings"] = func(x *Exec, call *ast.CallExpr, fn *types.Func, recv *Term, args []Term, st *State) []Term {
+		if !sortStrings(x, call, call.Args[0], false, st) {
+			return x.applyExternal(call, fn, effAlloc, recv, args, st)
+		}
+		return nil
+	}
+	specialExternals["sort.Sort"] = func(x *Exec, call *ast.CallExpr, fn *types.Func, recv *Term, args []Term, st *State) []Term {
+		isConv := func(e ast.Expr, name string) (ast.Expr, bool) {
+			c, ok := ast.Unparen(e).(*ast.CallExpr)
+			if !ok || len(c.Args) != 1 {
+				return nil, false
+			}
+			se, ok := ast.Unparen(c.Fun).(*ast.SelectorExpr)
+			if !ok || se.Sel.Name != name {
+				return nil, false
+			}
+			if id, ok := se.X.(*ast.Ident); !ok || id.Name != "sort" {
+				return nil, false
+			}
+			return c.Args[0], true
+		}
+		arg := call.Args[0]
+		desc := false
+		if inner, ok := isConv(arg, "Reverse"); ok {
+			arg, desc = inner, true
+		}
+		if target, ok := isConv(arg, "StringSlice"); ok && sortStrings(x, call, target, desc, st) {
+			return nil
+		}
+		return x.applyExternal(call, fn, effAlloc, recv, args, st)
+	}
 	// testify: Arguments is a []interface{}; Get(i) is element i (it panics in the library when i is out of
 	// range: not an obligation of the generated code), Error(i) is element i as an error (nil stays nil)
 	argGet := func(x *Exec, call *ast.CallExpr, fn *types.Func, recv *Term, args []Term, st *State) []Term {
@@ -457,6 +518,7 @@ func (x *Exec) siteObligations(call *ast.CallExpr, fn *types.Func, recv *Term, a
 		}
 		env := x.funcEnv(st)
 		env.locals = true
+		env.loop = x.curLoop // ($i, $outeri, ... of the loops the call site is in)
 		sig := fn.Type().(*types.Signature)
 		if recv != nil {
 			env.binds["$recv"] = bound{*recv, sig.Recv().Type()}
